@@ -81,7 +81,7 @@ def rule_delegate(ctx):
 
 THOROUGH_FS = []
 
-RULES = [("DELEGATE", rule_delegate, 7)]
+RULES = [("DELEGATE", rule_delegate, 4)]
 
 MANIFEST = {
     "text": "Static delegation check (serde feature set): Serialize is collect_str(self), Deserialize is deserialize_str(visitor), the visitor defines only expecting and visit_str (HIR associated-item list), visit_str is from_str(v).map_err(Error::custom). The serde form is therefore the Display/FromStr form for all values; non-strings hit serde's refusing defaults.",
